@@ -167,6 +167,13 @@ var checks = map[string]Check{
 			// unknown-route handlers on two sessions of one peer: every message sequence with empty/short/long bodies
 			// (a handler never sees bytes of another message, of its own or of the other session)
 			js = append(js, sched("c20", "kind=unknown,depth=3", 0, 2))
+			// a call issued while the session reconnects, held by its handler while further calls use the session
+			js = append(js, sched("c13_during", "more=3,pre=1", 0, 1), sched("c13_during", "more=2,pre=0", 0, 1))
+			if tier == "thorough" {
+				d := sched("c13_during", "more=3,pre=1", 1, 16)
+				d.Budget = 300
+				js = append(js, d)
+			}
 			return js
 		},
 	},
@@ -663,6 +670,14 @@ var checks = map[string]Check{
 					js = append(js, j)
 				}
 			}
+			// a call issued while the reconnect is in progress (client dial hook held at a gate)
+			du := sched("c13_during", "more=3,pre=1", 0, 1)
+			if tier == "thorough" {
+				du.Bound = 1
+				du.Shards = 16
+				du.Budget = 300
+			}
+			js = append(js, du)
 			// the dialing peer runs the overload plugin with a connection limit: a session that reconnects keeps its slot
 			rd := sched("c18_redial", "depth=6", 0, 2)
 			rd.EnvOnly = true
